@@ -553,8 +553,9 @@ class SourceFinder(object):
         snr = abs(data) / rmsimg
         # mask of pixles that are above the outerclip
         a = snr >= outerclip
-        # segmentation a la scipy
-        l, n = label(a)
+        # segmentation a la scipy (8-connected, as in find_islands: pixels
+        # that touch only at a corner belong to the same island / summit)
+        l, n = label(a, structure=np.ones((3, 3)))
         f = find_objects(l)
 
         if n == 0:
